@@ -277,21 +277,26 @@ def editBridgerStep (s : State) (o b : Nat) : State × Out :=
         oracles := s.oracles.set o { orc with bridger := b }
         byBridger := (s.byBridger.del orc.bridger).set b o }, .ok)
 
+/-- what a successful `UnbondedOracle` does to the store -/
+def unbondApply (s : State) (o : Nat) (orc : Oracle) : State :=
+  { s with
+    byExt := s.byExt.del orc.ext
+    byBridger := s.byBridger.del orc.bridger
+    oracles := s.oracles.del o
+    lastNonce := if unbondDeletesLastNonce then s.lastNonce.del o else s.lastNonce
+    retired := if unbondDeletesLastNonce then o :: s.retired else s.retired }
+
 def unbondStep (s : State) (o : Nat) (ubd : Bool) (bal : Nat) (dep : Bool) : State × Out :=
   if s.proposal.contains o then (s, .invalid) else
   match s.oracles.get o with
   | none => (s, .noOracle)
   | some orc =>
     if orc.online then (s, .invalid) else
-    if !ubd then (s, .dep) else                       -- stakingKeeper.GetUnbondingDelegation error
+    if unbondUbdRule = .requireExists && !ubd then (s, .dep) else   -- stakingKeeper.GetUnbondingDelegation error returned
+    if unbondUbdRule = .refuseIfExists && ubd then (s, .invalid) else -- "exist unbonding delegation"
     if 0 < orc.slashAmount s.params.slashFrac && bal < orc.slashAmount s.params.slashFrac then (s, .invalid) else
     if !dep then (s, .dep) else
-    ({ s with
-        byExt := s.byExt.del orc.ext
-        byBridger := s.byBridger.del orc.bridger
-        oracles := s.oracles.del o
-        lastNonce := if unbondDeletesLastNonce then s.lastNonce.del o else s.lastNonce
-        retired := if unbondDeletesLastNonce then o :: s.retired else s.retired }, .ok)
+    (unbondApply s o orc, .ok)
 
 /-- oracles that `UpdateProposalOracles` unbonds: registered, in the old proposal, not in the new one -/
 def govRemoved (s : State) (l : List Nat) (p : Nat × Oracle) : Bool := !l.contains p.1 && s.proposal.contains p.1
